@@ -41,6 +41,12 @@ CONSTRUCT = {
     'trystar': 'try:\n    pass\nexcept* E as err:\n    pass',
     'importmulti': 'import os as o, sys', 'importmulti2': 'import a.b as c, d.e, f as g, h',
     'frommulti': 'from m import (a as b, c, d as e, f)', 'importmulti3': 'import p.q, r as s, t.u.v',
+    # PEP 695 headers (accepted by a running CPython >= 3.12 only): every optional part of a function header present
+    'generic': 'def g[T](p1: T): pass', 'genericret': 'def g[T](p1: T, *p2: int, **p3) -> T:\n    return p1',
+    'genericasync': 'async def g[K, *Ts, **P](p1: K = 1) -> dict[K, int]:\n    yield p1',
+    'genericbound': 'def g[T: int, U: (str, bytes)]() -> list[T]: pass',
+    'genericclass': 'class K[T](B):\n    def m[U](self, p1: U) -> T: pass', 'typealias': 'type Alias[T] = list[T]',
+    'retannot': 'def g() -> int: pass', 'asyncret': 'async def g(p1) -> "S":\n    await p1',
 }
 CONTEXT = {'module': '{B}', 'def': 'def outer(q):\n{I}', 'class': 'class Outer:\n{I}', 'asyncdef': 'async def outer(q):\n{I}',
            'nesteddef': 'def o1():\n    def o2():\n{II}\n    return o2', 'method': 'class Outer:\n    def meth(self):\n{II}'}
